@@ -192,7 +192,7 @@ def plan(tier, seed):
             for lo in range(0, 256, 8):
                 items.append({"kind": "short", "phase": phase, "len": 2, "lo": lo, "hi": lo + 8, "exhaustive": "all byte strings of length <=2 in each phase x {eof, silence}"})
     items.append({"kind": "grammar", "exhaustive": "every corruption class of the handshake and frame grammars x {eof, silence} x 6 seeds"})
-    n = 6000 if tier == "quick" else 150000
+    n = 6000 if tier == "quick" else 600000
     per = 250 if tier == "quick" else 2500
     for s in range(0, n, per):
         items.append({"kind": "rand", "start": s, "count": per})
